@@ -2,6 +2,7 @@ package main
 
 import (
 	"fmt"
+	"go/ast"
 	"go/types"
 
 	"golang.org/x/tools/go/ssa"
@@ -31,12 +32,36 @@ func (e *Engine) havocLoop(fr *Frame, st *State, head *ssa.BasicBlock, phis []*s
 	for _, t := range targets {
 		switch {
 		case t.ghost != "":
-			st.ghost[t.ghost] = e.freshVar("ghost_"+t.ghost, SInt)
+			st.ghost[t.ghost] = e.freshVar("ghost_"+t.ghost, e.ghostSort(t.ghost))
 		case t.whole != nil:
 			old, _ := e.heapGet(st, t.whole).(ArrV)
 			st.heap[t.whole] = e.freshArr(st, old.Elem, t.whole.Name+"_loop")
 		case t.ptr != nil:
 			e.storePtr(st, *t.ptr, e.fresh(st, t.ptr.Elem, "loop_"+t.ptr.Obj.Name))
+		}
+	}
+	// source variables assigned inside the loop but not carried by a phi (dead after the
+	// assignment as far as SSA is concerned) have an unknown value at the head
+	phiNames := map[string]bool{}
+	for _, p := range phis {
+		phiNames[p.Comment] = true
+	}
+	for _, b := range fr.fn.Blocks {
+		if !blocks[b.Index] {
+			continue
+		}
+		for _, ins := range b.Instrs {
+			if d, ok := ins.(*ssa.DebugRef); ok && !d.IsAddr {
+				id, isID := d.Expr.(*ast.Ident)
+				if !isID || phiNames[id.Name] {
+					continue
+				}
+				if vi, isInstr := d.X.(ssa.Instruction); isInstr && vi.Block() != nil && blocks[vi.Block().Index] {
+					if _, isAddr := st.vars[id.Name].(varAddr); !isAddr {
+						delete(st.vars, id.Name)
+					}
+				}
+			}
 		}
 	}
 	for _, p := range phis {
@@ -397,9 +422,9 @@ func (e *Engine) checkInvariant(fr *Frame, st *State, ord int, inv []*Clause, wh
 		if !hasTag(cl.Tags, e.curTags) || (cl.Case != 0 && cl.Case != e.curCase) {
 			continue
 		}
-		g := ctx.boolean(cl.E)
+		g, note := ctx.goal(cl.E)
 		name := fmt.Sprintf("%s/inv%d.%s%s#%d", e.curFn, ord, which, fr.callPath, cl.Ord)
-		e.addObl(st, name, "inv", cl.Tags, g, "loop invariant ("+which+"): "+cl.Text, fmt.Sprintf("%s:%d", shortFile(cl.File), cl.Line))
+		e.addObl(st, name, "inv", cl.Tags, g, "loop invariant ("+which+"): "+cl.Text+note, fmt.Sprintf("%s:%d", shortFile(cl.File), cl.Line))
 	}
 }
 
